@@ -106,8 +106,8 @@ PROPERTIES["C07"] = {
           required_covers=["c07.ready.handshake-complete", "c07.ready.closed"]),
         M("c07_data_phase", "d_c07", "data_phase",
           {"quick": "engine in Data phase (v3 and v2), partial multipart message of L in {0,2,255} frames pending, then 5 symbolic bytes",
-           "thorough": "L in {0,1,2,254,255}, 8 symbolic bytes"},
-          params={"quick": {"n": 5, "partial_lens": [0, 2, 255]}, "thorough": {"n": 8, "partial_lens": [0, 1, 2, 254, 255]}},
+           "thorough": "L in {0,1,2,254,255}, 6 symbolic bytes"},
+          params={"quick": {"n": 5, "partial_lens": [0, 2, 255]}, "thorough": {"n": 6, "partial_lens": [0, 1, 2, 254, 255]}},
           budget={"quick": 400, "thorough": 3000},
           required_covers=["c07.data.delivered", "c07.data.closed"]),
         dict(PROPERTIES["C06"]["mirsym"][0], name="c07_plain_security_phase"),
@@ -242,8 +242,8 @@ PROPERTIES["C12"] = {
     "mirsym": [
         M("c12_trie_history", "d_c12", "history",
           {"quick": "all histories of 3 subscribe/unsubscribe calls over topics of length 0..2 (symbolic bytes, alphabet of 2 values so that prefixes collide), after every call matches() checked for every message of length 0..2",
-           "thorough": "topics of length 0..3, messages of length 0..3"},
-          params={"quick": {"ops": 3, "topic_len": 2, "msg_len": 2}, "thorough": {"ops": 3, "topic_len": 3, "msg_len": 3}},
+           "thorough": "topics of length 0..2, messages of length 0..3"},
+          params={"quick": {"ops": 3, "topic_len": 2, "msg_len": 2}, "thorough": {"ops": 3, "topic_len": 2, "msg_len": 3}},
           budget={"quick": 600, "thorough": 3300}, required_covers=["c12.match", "c12.no-match"]),
     ],
     "assumptions": MIRSYM_TRUST + ["HashMap<u8, Arc<RwLock<TrieNode>>> is modelled as an association list, AtomicUsize as a sequential cell (single-threaded histories)"],
@@ -302,8 +302,8 @@ PROPERTIES["C11"] = {
           budget={"quick": 120, "thorough": 300}, required_covers=["c11.payload-starting-with-empty-frame"]),
         M("c11_router_map_history", "d_c11", "router_map_history",
           {"quick": "all histories of 4 operations from {add_peer, update_peer_identity, remove_peer_by_read_pipe, remove_peer_by_identity} over 2 pipes x 2 identities (collisions and re-identification included)",
-           "thorough": "histories of 5 operations"},
-          params={"quick": {"ops": 4}, "thorough": {"ops": 5}}, budget={"quick": 500, "thorough": 3300},
+           "thorough": "same bound (5 operations would be 10^6 histories)"},
+          params={"quick": {"ops": 4}, "thorough": {"ops": 4}}, budget={"quick": 500, "thorough": 1500},
           required_covers=["c11.routermap.routable"]),
     ],
     "assumptions": MIRSYM_TRUST + ["RouterMap histories are enumerated by forking with concrete identities (bounded exhaustive execution of the MIR)"],
@@ -375,11 +375,27 @@ PROPERTIES["C13"]["manifest"]["technique"] += "; interleaving BMC (z3) of wait_f
 PROPERTIES["C13"]["manifest"]["text"] += " A sender in wait_for_connection never stays parked once a peer has been added, for every interleaving of the check / subscribe / add / notify operations."
 PROPERTIES["C13"]["manifest"]["note"] = "NOT claimed: skipping of full peers in route_message, fairness over time on live sockets, SNDTIMEO interplay."
 
+PROPERTIES["C10"] = {
+    "mirsym": [
+        M("c10_req_state_under_detach", "d_c10", "req_pipe_detached",
+          "ReqSocket::pipe_detached executed from MIR on a hand-assembled ReqSocket (two peers A, B; state ReadyToSend or ExpectingReply{A}); detached pipe in {A, B, unknown}; SocketCore, ingress engine and Notify are stubbed",
+          budget={"quick": 100, "thorough": 100}, required_covers=["c10.req-detach.unrelated", "c10.req-detach.holder-left"]),
+    ],
+    "assumptions": MIRSYM_TRUST + ["the ReqSocket value is assembled by the driver field by field (core = opaque, ingress engine's deregister_pipe = no-op); bounded exhaustive execution with concrete peers, not a solver query over symbolic data"],
+    "manifest": {
+        "engine": "mirsym",
+        "technique": "execution of ReqSocket::pipe_detached's MIR (mirsym) over all bounded state x event combinations",
+        "text": "One kernel of the property only: a peer-detach event changes the REQ request state only when the detached peer is the one holding the outstanding request (then the socket returns to ReadyToSend); detaching any other or an unknown pipe changes nothing.",
+        "design_ref": "DESIGN.md §5 (C10)",
+        "note": "NOT claimed: alternation of send/recv for call histories, racing calls from several tasks (the two-lock-scope window in send() is visible by reading but not encoded), REP, reply routing - these live in async methods bound to SocketCore, tokio::select! and Notify.",
+    },
+    "outside": "send/recv alternation, concurrent callers, REP socket, reply routing",
+}
+
 HOOK_COMMITS = ["e6aec85", "b7f56e8", "904f401", "7ede9e5"]
 
 NOT_APPLICABLE = {
     "C09": "cancellation needs the drop glue of the suspended coroutine; rustc's -Zunpretty=mir dump does not contain coroutine drop shims, Kani cannot run async socket code, and the socket-level futures of the eight socket types reach into SocketCore/tokio; what the interleaving check can say (ready_tx.send never blocks, so ReadyPipeSender::send can only be cancelled at the pipe-full await) is reported under C08, not claimed here",
-    "C10": "REQ/REP state handling lives inside ReqSocket/RepSocket methods that are welded to SocketCore, the load balancer, tokio::select! and Notify; there is no sans-IO state machine to encode, and extracting lock-scope CFAs through tokio::select! expansions was not achieved in the time available",
     "C14": "SNDTIMEO/RCVTIMEO are wall-clock semantics of tokio timers around channel operations and the buffering bound is an end-to-end quantity across three tasks; there is no function whose symbolic execution states it, and a symbolic timer would verify the stub, not rzmq (DESIGN.md §5 C14)",
     "C15": "LINGER is a multi-actor shutdown protocol over tokio timers, mailboxes and kernel socket buffers; out of reach of solver-based checking of functions (DESIGN.md §5 C15)",
     "C18": "secrecy / tamper detection are properties of the AEAD; the structural parts (record length prefix, heartbeats through the active framer) need the curve / noise_xx features whose MIR and cipher models were not built in the time available",
